@@ -11,7 +11,8 @@
 
     Proved here (closed, for every oracle, every string / continuation): the LEXICAL RUNG.
     (a) the renderings of comments, PIs and character references of Spec/Infoset.v are read back by
-        the recognisers of Spec/XmlWF.v ([render_*_wf], [char_ref_roundtrip]);
+        the recognisers of Spec/XmlWF.v ([render_*_wf], [char_ref_roundtrip]); attribute-value literals
+        are read back by [p_AttValue] and their normalized value is independent of the oracle;
     (b) what the specification recognises, the REGENERATED grammar of the real parser accepts with the
         same rest ([*_complete]);
     (c) hence the real productions accept every rendering ([parser_accepts_rendered_*]).
@@ -42,6 +43,18 @@ Theorem char_ref_reads_back : forall k ch rest, (ch < 100000000)%N ->
   p_ref (tl (char_ref k ch) ++ rest) = Some (RChar ch, rest).
 Proof. exact char_ref_roundtrip. Qed.
 
+(** attribute-value literals: read back, whatever the oracle chose, as the same sequence of characters
+    and references; the value (3.3.3) of what is read back is the value of the canonical pieces of
+    the abstract value, i.e. it does not depend on the surface choices *)
+Theorem att_literal_is_attvalue : forall c p v rest, items_ok v = true ->
+  exists q, quote q /\
+    p_AttValue (S (items_size v)) (att_literal c p v ++ rest) = Some (items_pieces q c (1%N :: p) 0 v, rest).
+Proof. exact att_literal_reads_back. Qed.
+
+Theorem att_value_does_not_depend_on_choices : forall f en q c p v i, quote q -> std_predef en ->
+  av_value (S (S f)) en (items_pieces q c p i v) = av_value (S (S f)) en (att_pieces v).
+Proof. exact att_value_choice_independent. Qed.
+
 (** ** (b) *)
 Theorem comment_complete : forall s r, spec_comment s = Some r -> rest_of (run G_xml R nt_comment s) = Some r.
 Proof. intros s r H. now rewrite comment_language. Qed.
@@ -69,5 +82,7 @@ Print Assumptions all_choices_ok.
 Print Assumptions render_comment_is_comment.
 Print Assumptions render_pi_is_pi.
 Print Assumptions char_ref_reads_back.
+Print Assumptions att_literal_is_attvalue.
+Print Assumptions att_value_does_not_depend_on_choices.
 Print Assumptions parser_accepts_rendered_comment.
 Print Assumptions parser_accepts_rendered_pi.
